@@ -109,13 +109,16 @@ def _seq_spec(draw):
         loaded.update(x[2])
     insts = []
     dnets = [x[0] for x in nodes if x[0] != "clk"] or ["clk"]
+    # instance names in an order that is neither sorted nor the creation order of their nets
+    fnames = draw(st.lists(st.sampled_from(["f0", "f1", "f2", "f10", "r2", "r10", "cnt1", "cnt0", "zreg", "areg"]),
+                           min_size=nf, max_size=nf, unique=True))
     for f in range(nf):
         conns = {"clk": "clk", "d": draw(st.sampled_from(dnets))}
         if has_rst:
             conns["rst"] = draw(st.sampled_from(["rst", "rst"] + dnets))
         if q_connected[f]:
             conns["q"] = qbufs[f]
-        insts.append([f"f{f}", 0, conns])
+        insts.append([fnames[f], 0, conns])
         loaded.add(conns["d"])
     for x in nodes:
         if x[1] in S.ALL_GATES and x[0] not in loaded:
@@ -127,9 +130,10 @@ def _seq_spec(draw):
 def _case(draw, ctx):
     tables = draw(st.lists(st.integers(0, (1 << 64) - 1), min_size=24, max_size=24))
     if draw(st.booleans()):
-        spec = draw(S.circuit_spec(min_inputs=1, max_inputs=4, min_gates=1, max_gates=8, max_fanin=3))
-        ins = [x[0] for x in spec["nodes"] if x[1] == "input"]
-        outs = [x[0] for x in spec["nodes"] if x[3]]
+        spec = draw(S.circuit_spec(min_inputs=1, max_inputs=4, min_gates=1, max_gates=8, max_fanin=3,
+                                   io_outputs=draw(st.booleans())))
+        ins = [x[0] for x in spec["nodes"] if x[1] == "input" and not x[3]]
+        outs = [x[0] for x in spec["nodes"] if x[3] and x[1] != "input"]
         m = draw(st.integers(0, min(len(ins), len(outs))))
         ks = draw(st.lists(st.sampled_from(outs), min_size=m, max_size=m, unique=True)) if m else []
         vs = draw(st.lists(st.sampled_from(ins), min_size=m, max_size=m, unique=True)) if m else []
